@@ -1,6 +1,7 @@
 package main
 
 import (
+	"encoding/json"
 	"os"
 	"path/filepath"
 )
@@ -8,3 +9,9 @@ import (
 func osReadFile(p string) ([]byte, error) { return os.ReadFile(p) }
 
 func filepathGlob(p string) ([]string, error) { return filepath.Glob(p) }
+
+type jsonNumber string
+
+func (n jsonNumber) MarshalJSON() ([]byte, error) { return []byte(n), nil }
+
+func jsonMarshal(v any) ([]byte, error) { return json.Marshal(v) }
